@@ -8,7 +8,7 @@ DRIVERS = [
     dict(name="life_dylib", src="life.cpp", defines=["LIFE_DYLIB"], ops=["lifed"]),      # rlbox_dylib_sandbox (bound to libc.so.6)
 ]
 ALPHA13 = ["r:0:0:1", "r:0:0:2", "r:1:0:1", "r:1:0:2", "r:2:0:3", "u:0", "u:1", "ma:0:1", "ma:1:0", "ma:0:0", "ma:2:0", "mc:2:0", "mc:2:1", "mc:0:2",
-           "q:0", "q:1", "gs:0:0", "gs:0:1", "gs:0:3", "go:0:0", "go:1:0", "go:2:0", "fill:0:2", "fill:0:3", "d:0", "c:0:1", "r:0:1:1", "c:1:1"]
+           "q:0", "q:1", "occ:0", "gs:0:0", "gs:0:1", "gs:0:3", "go:0:0", "go:1:0", "go:2:0", "fill:0:2", "fill:0:3", "d:0", "c:0:1", "r:0:1:1", "c:1:1"]
 
 
 def gen_cases(tier, rng):
@@ -27,6 +27,10 @@ def gen_cases(tier, rng):
     for pre in (["fill:0:64"], ["fill:0:63", "r:0:0:1"], ["fill:0:63", "r:0:0:1", "u:0"], ["fill:0:62", "r:0:0:1", "r:1:0:2", "ma:0:1"], ["fill:0:65"]):
         for tail in (["r:1:0:2"], ["r:1:0:2", "q:1", "go:1:0"], ["u:0", "r:1:0:2", "go:1:0"], ["r:2:0:3", "go:2:0"]):
             cases.append("lifen c:0:1 " + " ".join(pre + tail))
+    # releases in an order other than last-registered-first leave holes in the back end's table
+    for rel in (["u:0", "u:1"], ["u:0", "occ:0", "u:1", "occ:0"], ["u:0", "u:1", "u:2", "occ:0"], ["u:1", "u:0", "occ:0"], ["u:0", "r:0:0:3", "occ:0", "u:1", "u:0", "occ:0"]):
+        cases.append("lifen c:0:1 r:0:0:1 r:1:0:2 r:2:0:4 " + " ".join(rel) + " occ:0 r:0:0:5 occ:0")
+        cases.append("life32 c:0:1 r:0:0:1 r:1:0:2 r:2:0:4 " + " ".join(rel) + " occ:0 r:0:0:5 occ:0")
     for c in list(cases[::5]):
         if c.startswith("life32"):
             cases.append("lifen " + c.split(" ", 1)[1])
@@ -43,7 +47,7 @@ def NONTRIVIAL(case, model, cls):
 
 RULE = ("histories on a pool of 8 (+170 filler) application functions and 3 owner variables over {register f_k into owner j, unregister, move-assign (onto empty, onto live, self, from inert), "
         "move-construct, is_unregistered, guest call of a raw entry-point slot, guest call through the entry point an owner holds, fill n slots, destroy sandbox, re-create}: exhaustive to "
-        "depth 3 (quick)/4 (thorough) over 28 operations after create, random to length 24; pools larger than the table (verif: 4 slots; rlbox_noop_sandbox and rlbox_dylib_sandbox: 64 slots, 65th registration; every history of the no-op back end also runs on rlbox_dylib_sandbox). "
+        "depth 3 (quick)/4 (thorough) over 29 operations after create, random to length 24; pools larger than the table (verif: 4 slots; rlbox_noop_sandbox and rlbox_dylib_sandbox: 64 slots, 65th registration; every history of the no-op back end also runs on rlbox_dylib_sandbox). "
         "After every step: outcome, slot index issued, which function a guest call reaches.")
 TRUSTED = ["model coq/World.v hand-written; tied by differential correspondence of whole histories"]
 ASSUMPTIONS = ["abort is terminal", "the owner/key/slot agreement is proved for all histories without sandbox destruction; histories with destroy + re-create meet known finding D12 and are decided by the correspondence"]
